@@ -154,3 +154,5 @@ def check(ctx):
     from . import c02
     c02.check_manifest(ctx)    # MANIFEST record durable before CURRENT names it (a crash inside recovery must stay recoverable)
     c17.check_current(ctx)
+    c17.check_snapshot(ctx)    # the MANIFEST every open writes afresh re-emits every file of every level
+    c02.check_tables(ctx)      # a table built during replay is durable before its log is given up
